@@ -11,7 +11,7 @@ COMMON_ASSUMPTIONS = [
     "TLC, the CommunityModules Json/IOUtils modules and the harness's image builder are correct",
 ]
 
-MIX = "small:60,positions:40,gc-heavy:12,big:6,many-queues:6,names:6,wrap:6,batch:12,empties:10,edge63:10"
+MIX = "small:60,positions:40,gc-heavy:12,big:6,many-queues:6,names:6,wrap:6,batch:12,empties:10,edge63:10,gapbatch:10"
 MC_QM = dict(name="MC_QueueMap", module="QueueMapMC.tla", cfg="MC_QueueMap.cfg", cfg_thorough="MC_QueueMap_thorough.cfg",
              expect_actions=["QNext"])
 WAL_STEPS = ["CallBegin", "StepEntry", "StepWrite", "StepFlush", "StepFsync", "StepDirSync", "StepCreate", "StepSetLen",
@@ -178,7 +178,7 @@ RECIPES = {
                    opts_thorough={"crash": "process", "tears": "all", "cont": True, "max-points": "8000"},
                    thorough_factor=6),
               # clean histories: batches spanning several files, GC passes triggered by other queues, clean restarts
-              dict(cmd="run", gen="aim-span:24,batch:20,big:6,aim-batch:40", policy="always_flush"),
+              dict(cmd="run", gen="aim-span:24,batch:20,big:6,aim-batch:40,gapbatch:20", policy="always_flush"),
               # (with the compound experiment of C08: damage that moves the end of the log, a reopen, a crash inside an
               # aimed BATCH append whose spliced entry is malformed - it must be dropped as a whole)
               dict(cmd="damage", gen="batch:24,big:4,aim-batch:30,aim-recreate:20", policy="always_flush",
@@ -285,7 +285,9 @@ RECIPES = {
               dict(cmd="codec", opts={"cases": "300"}, opts_thorough={"cases": "3000"}),
               # (do_nothing: entries wait in the BufWriter while the next ones are laid out - padding, seeks and
               # roll-overs then happen with unflushed frames pending)
-              dict(cmd="run", gen="aim-block:60,boundary:40,big:10", policy="always_flush,do_nothing", monitors={"C01", "C05", "C15"})],
+              # (aim-span: entries of 1.1 to 3.2 files started 0..8 bytes before a file end, a GC pass run by another
+              # queue while they are retained, restarts: an entry must come back whole from all the files it spans)
+              dict(cmd="run", gen="aim-block:60,boundary:40,big:10,aim-span:24", policy="always_flush,do_nothing", monitors={"C01", "C05", "C15"})],
         rule="record layer in memory: the real RecordWriter over a logging block writer and the real RecordReader, start "
              "cursors at every boundary class (thorough: all 32768 in-block offsets) x 1-3 entry lengths chosen relative to "
              "the cursor (0, 1, fills the frame exactly, +-1, one and two more blocks, > 1 file, ~300 KB): layout compared "
